@@ -15,7 +15,8 @@
 //     node), whether it follows references to functions / to methods, whether a reference of a
 //     specification to itself is dropped; whether gta makes the variables of `var a, b = f()` global
 //     symbols carrying their node and comes back to the declaration until the callee is declared;
-//     whether ast takes `var a, b = x, y` apart at package level; fingerprints of those statements.
+//     whether ast takes `var a, b = x, y` apart at package level; whether genGlobalVarDecl collects the
+//     dependencies of every specification (no skipped kinds); fingerprints of those statements.
 //
 // A construct that is no longer recognised yields a token "unrecognised: …", which cannot equal
 // the hand-written expectation.
@@ -594,6 +595,44 @@ func depWalkFacts(fd *ast.FuncDecl) (resolve string, followFuncs, followMethods,
 	return resolve, followFuncs, followMethods, skipSelf
 }
 
+// collectSkipFact reads, in genGlobalVarDecl, the loop that fills `deps`:
+//
+//	for _, n := range nodes { deps[n] = getVarDependencies(n, sc) }                     .none
+//	… { if n.kind == defineStmt && n.lastChild().kind == funcLit { continue }; deps[n] = … }   .funcLit
+//
+// anything else: .other (the loop is no longer "dependencies are collected for every node").
+func collectSkipFact(fd *ast.FuncDecl) string {
+	if fd == nil || fd.Body == nil {
+		return other("function genGlobalVarDecl not found")
+	}
+	var loops []*ast.RangeStmt
+	ast.Inspect(fd.Body, func(m ast.Node) bool {
+		if rs, ok := m.(*ast.RangeStmt); ok && strings.Contains(render(rs.Body), "getVarDependencies(") {
+			loops = append(loops, rs)
+		}
+		return true
+	})
+	if len(loops) != 1 {
+		return other(fmt.Sprintf("%d loops calling getVarDependencies in genGlobalVarDecl", len(loops)))
+	}
+	rs := loops[0]
+	if render(rs.X) != "nodes" || render(rs.Value) != "n" {
+		return other("loop over " + render(rs.X))
+	}
+	const asg = "deps[n]=getVarDependencies(n,sc)"
+	l := rs.Body.List
+	switch {
+	case len(l) == 1 && render(l[0]) == asg:
+		return ".none"
+	case len(l) == 2 && render(l[1]) == asg:
+		if x, ok := l[0].(*ast.IfStmt); ok && x.Init == nil && x.Else == nil && stmts(x.Body.List) == "continue" &&
+			render(x.Cond) == "n.kind==defineStmt&&n.lastChild().kind==funcLit" {
+			return ".funcLit"
+		}
+	}
+	return other("genGlobalVarDecl: " + stmts(l))
+}
+
 // caseClause finds the first `case <name>:` (a single expression) in a function.
 func caseClause(fd *ast.FuncDecl, name string) *ast.CaseClause {
 	var out *ast.CaseClause
@@ -761,7 +800,8 @@ def depFacts : DepFacts :=
     skipSelf := %s,
     multiGlobal := %s,
     multiRetry := %s,
-    splitPaired := %s }
+    splitPaired := %s,
+    collectSkip := %s }
 /-- fingerprints of the statements depFacts was read from (getVarDependencies is in sourceHashes) -/
 def depHashes : List (String × String) :=
   [%s]
@@ -770,7 +810,7 @@ end YaegiVerif.Generated.C15
 			common.LeanStrList(tokens(common.FindFunc(fp, "Interpreter", "CompileAST"))),
 			common.LeanStrList(tokens(common.FindFunc(fs, "Interpreter", "importSrc"))),
 			h1, h2, register, add, join, gcases, strings.Join(ihs, ",\n   "),
-			resolve, leanBool(fFuncs), leanBool(fMeths), leanBool(skipSelf), leanBool(mGlobal), leanBool(mRetry), leanBool(split),
+			resolve, leanBool(fFuncs), leanBool(fMeths), leanBool(skipSelf), leanBool(mGlobal), leanBool(mRetry), leanBool(split), collectSkipFact(common.FindFunc(fc, "", "genGlobalVarDecl")),
 			strings.Join(dhs, ",\n   ")), nil
 	})
 }
